@@ -129,7 +129,7 @@ func checkCallbackIndependence(c *core.Ctx, src []byte, ver string, with obs.Par
 	a, b := obs.Fingerprint(with.Root, false), obs.Fingerprint(without.Root, false)
 	c.Add("callback_vs_nil_trees_compared", 1)
 	if a != b {
-		c.Violation(fmt.Sprintf("callback|tree-differs|fam%d|%s", obs.Fam(ver), fpSig(a, b)), "the tree returned with an error callback differs from the tree returned without one: "+obs.FirstDiff(a, b), core.W(src, ver))
+		c.Violation(fmt.Sprintf("callback|tree-differs|fam%d|%s", obs.Fam(ver), obs.DiffPath(with.Root, without.Root)), "the tree returned with an error callback differs from the tree returned without one: "+obs.FirstDiff(a, b), core.W(src, ver))
 		return false
 	}
 	return true
